@@ -1,0 +1,243 @@
+//go:build verif
+
+// Contracts for package report, read by the verification-condition generator in /verif/govc.
+// This file contains comments only; it is compiled only with -tags verif and adds no code.
+
+package report
+
+/*@
+// ---------------------------------------------------------------------------------------------
+// report unresolved: the set of logged foods the book does not define, printed one per line in strictly
+// increasing order (so the output is a function of that set, whatever the map iteration order - C05)
+// ---------------------------------------------------------------------------------------------
+pred UnsInv(r *UnsolvedReporter) := r != nil && r.output != nil && r.list != nil && DBOk(r.db)
+
+func NewUnsolvedReporter returns (r)
+  props C17 C08 C07
+  modifies ghost(bufSink, bufSticky)
+  ensures @fresh r != nil && fresh(r) && r.output != nil && fresh(r.output) && r.db == db && r.list != nil && fresh(r.list) && len(r.list) == 0
+  ensures @sink [C17] bufSink == store(old(bufSink), r.output, payload(config.Output)) && bufSticky == store(old(bufSticky), r.output, false)
+
+// a food enters the list exactly when the book does not define it (the same test as every other report, C07)
+func (*UnsolvedReporter).Process returns (err)
+  props C17 C08 C07
+  requires @args ln != nil && UnsInv(r)
+  modifies mapof(r.list)
+  ensures @inv UnsInv(r) && err == nil && r.list == old(r.list) && r.output == old(r.output) && r.db == old(r.db)
+  ensures @exactly-the-undefined [C07] forall x string :: {x in r.list} (x in r.list) == (old(x in r.list) || (SpecHas(elems(ln.Elements), len(ln.Elements), x) && !(x in r.db)))
+  loop 1 {
+    pre { unfold forall x string :: SpecHas(elems(ln.Elements), 0, x) }
+    invariant @inv r == old(r) && ln == old(ln) && r.list == old(r.list) && r.output == old(r.output) && r.db == old(r.db) && UnsInv(r)
+    invariant @sofar forall x string :: {x in r.list} (x in r.list) == (old(x in r.list) || (SpecHas(elems(ln.Elements), #i, x) && !(x in r.db)))
+    end { let i1 := #i + 1; unfold forall x string :: SpecHas(elems(ln.Elements), i1, x) }
+  }
+
+func (*UnsolvedReporter).Flush returns (err)
+  props C17 C08 C05 C07
+  requires @args UnsInv(r)
+  modifies ghost(bufSticky, sinkFailed, sinkPend, prLen, prSink, prArg, prArgs)
+  ensures @sink [C17] BufStep(r.output)
+  ensures @reports-loss [C17] (err != nil) == bufSticky[r.output] && (err == nil ==> sinkPend[bufSink[r.output]] == 0)
+  ensures @one-line-per-name [C05 C07] prLen == old(prLen) + len(r.list)
+  ensures @names [C05 C07] forall k int :: {prArg[k]} old(prLen) <= k && k < prLen ==> typeis(prArg[k], "string") && cellat(string, payload(prArg[k])) in r.list && prSink[k] == r.output
+  ensures @sorted [C05] forall k1, k2 int :: {prArg[k1], prArg[k2]} old(prLen) <= k1 && k1 < k2 && k2 < prLen ==> cellat(string, payload(prArg[k1])) < cellat(string, payload(prArg[k2]))
+  loop 1 {
+    invariant @count len(names) == #it && r == old(r) && r.list == old(r.list) && r.output == old(r.output) && arr(names) >= old(alloc()) && arr(names) != 0 && UnsInv(r)
+    invariant @copied forall j int :: {names[j]} 0 <= j && j < #it ==> names[j] == #ord[j]
+  }
+  ghost after call 1 Strings {
+    unfold SortedStr(elems(names), len(names))
+    lassert @keys-perm forall p int :: {names[p]} 0 <= p && p < len(names) ==> names[p] in r.list && names[p] == at(call, elems(names))[PermBack(at(call, elems(names)), elems(names), p)]
+    assert @keys forall p int :: {names[p]} 0 <= p && p < len(names) ==> names[p] in r.list
+    unfold StrictStr(elems(names), len(names))
+    assert @strict StrictStr(elems(names), len(names))
+    forget call
+  }
+  loop 2 {
+    invariant @inv r == old(r) && r.list == old(r.list) && r.output == old(r.output) && UnsInv(r) && mapval(r.list) == old(mapval(r.list)) && BufStep(r.output) && len(names) == len(r.list) && arr(names) >= old(alloc())
+    invariant @keys forall p int :: {names[p]} 0 <= p && p < len(names) ==> names[p] in r.list
+    invariant @strict StrictStr(elems(names), len(names))
+    invariant @count prLen == old(prLen) + #i
+    invariant @printed forall k int :: {prArg[k]} old(prLen) <= k && k < prLen ==> typeis(prArg[k], "string") && cellat(string, payload(prArg[k])) == names[k - old(prLen)] && prSink[k] == r.output && payload(prArg[k]) < alloc() && payload(prArg[k]) >= old(alloc())
+  }
+  ghost before return 1 { unfold StrictStr(elems(names), len(names)) }
+
+// ---------------------------------------------------------------------------------------------
+// report totals: one accumulator for the whole period. After a day has been processed every element's positive
+// and negative register has grown by exactly that day's contributions EPos / ENeg - the figures the register
+// shows as the day's totals (GetReportItem) - so the period totals are the sums of the daily totals (C07, C12).
+// ---------------------------------------------------------------------------------------------
+pred TotInv(tr TotalReporter) := tr.output != nil && WfAcc(tr.acc) && AccView(tr.acc) && DBIs(tr.db)
+
+func NewTotalReporter returns (tr)
+  props C17 C08 C07
+  modifies ghost(bufSink, bufSticky, accP, accN, accH)
+  ensures @fresh tr != nil && fresh(tr) && tr.output != nil && fresh(tr.output) && tr.db == db && fresh(tr.acc) && WfAcc(tr.acc) && AccView(tr.acc) && len(tr.acc) == 0
+  ensures @sink [C17] bufSink == store(old(bufSink), tr.output, payload(c.Output)) && bufSticky == store(old(bufSticky), tr.output, false)
+
+func (TotalReporter).Process returns (err)
+  props C17 C08 C07 C12
+  requires @args ln != nil && TotInv(tr)
+  modifies mapof(tr.acc), arrays(float64)
+  modifies ghost(accKey, accP, accN, accH)
+  let E0 := elems(ln.Elements)
+  let N0 := len(ln.Elements)
+  let A := tr.acc
+  let P0 := accP[tr.acc]
+  let M0 := accN[tr.acc]
+  let H0 := accH[tr.acc]
+  ensures @inv TotInv(tr) && err == nil
+  ensures @adds-the-day [C07 C12] AccFrom(A, P0, M0, H0, E0, N0, E0, 0, 0.0)
+  loop 1 {
+    pre { unfold forall x string :: EPos(E0, 0, x); unfold forall x string :: ENeg(E0, 0, x); unfold forall x string :: EHas(E0, 0, x); unfold forall x string :: CPosIn(E0, 0, 0.0, x); unfold forall x string :: CNegIn(E0, 0, 0.0, x); unfold forall x string :: SpecHas(E0, 0, x) }
+    invariant @params ln == old(ln) && tr == old(tr) && elems(ln.Elements) == E0 && len(ln.Elements) == N0 && ln.Elements == old(ln.Elements)
+    invariant @inv TotInv(tr)
+    invariant @acc-is AccFrom(A, P0, M0, H0, E0, #i, E0, 0, 0.0)
+    end {
+      let i1 := #i + 1
+      unfold forall x string :: EPos(E0, i1, x)
+      unfold forall x string :: ENeg(E0, i1, x)
+      unfold forall x string :: EHas(E0, i1, x)
+      unfold forall x string :: CPos(E0[i1 - 1].Name, E0[i1 - 1].Value, x)
+      unfold forall x string :: CNeg(E0[i1 - 1].Name, E0[i1 - 1].Value, x)
+      unfold forall x string :: CHas(E0[i1 - 1].Name, x)
+    }
+  }
+  loop 2 {
+    pre { unfold forall x string :: CPosIn(RDB[element.Name], 0, element.Value, x); unfold forall x string :: CNegIn(RDB[element.Name], 0, element.Value, x); unfold forall x string :: SpecHas(RDB[element.Name], 0, x) }
+    invariant @params ln == old(ln) && tr == old(tr) && elems(ln.Elements) == E0 && len(ln.Elements) == N0 && ln.Elements == old(ln.Elements)
+    invariant @inv TotInv(tr)
+    invariant @row element == E0[#i1] && 0 <= #i1 && #i1 < N0 && element.Name in RDBdom && elems(#coll) == RDB[element.Name] && len(#coll) == RDBlen[element.Name]
+    invariant @acc-is AccFrom(A, P0, M0, H0, E0, #i1, RDB[element.Name], #i, element.Value)
+  }
+  ghost before call 1 Add {
+    let j1 := #i + 1
+    unfold forall x string :: CPosIn(RDB[element.Name], j1, element.Value, x)
+    unfold forall x string :: CNegIn(RDB[element.Name], j1, element.Value, x)
+    unfold forall x string :: SpecHas(RDB[element.Name], j1, x)
+  }
+
+// one row of the totals table: positive, negative, their sum, the element's name (operands of the Fprintf)
+pred TotalRow(k int, name string, pos float64, neg float64) :=
+     cellat(float64, payload(prArgs[k][0])) == pos && cellat(float64, payload(prArgs[k][1])) == neg
+  && cellat(float64, payload(prArgs[k][2])) == pos + neg && cellat(string, payload(prArgs[k][3])) == name
+
+func printTotalRow returns (err)
+  props C17 C08 C07
+  modifies ghost(bufSticky, sinkFailed, sinkPend, prLen, prSink, prArg, prArgs)
+  ensures @write [C17] WriteStep(output, err)
+  ensures @row [C07] prLen == old(prLen) + 1 && prSink[old(prLen)] == payload(output) && TotalRow(old(prLen), name, positive, negative)
+  ensures @boxes forall j int :: {prArgs[old(prLen)][j]} 0 <= j && j < 4 ==> payload(prArgs[old(prLen)][j]) >= old(alloc()) && payload(prArgs[old(prLen)][j]) < alloc()
+  ensures @old-rows forall k int :: {prArgs[k]} k != old(prLen) ==> prArgs[k] == old(prArgs[k])
+
+// Flush prints a header and one row per element, strictly sorted by name, with the accumulated figures
+func (TotalReporter).Flush returns (err)
+  props C17 C08 C07 C05
+  requires @args TotInv(tr)
+  modifies ghost(bufSticky, sinkFailed, sinkPend, prLen, prSink, prArg, prArgs)
+  let A := tr.acc
+  ensures @sink [C17] BufStep(tr.output)
+  ensures @reports-loss [C17] err == nil ==> !bufSticky[tr.output] && sinkPend[bufSink[tr.output]] == 0
+  ensures @row-count [C07 C05] err == nil ==> prLen == old(prLen) + (if len(A) > 0 then 1 + len(A) else 0)
+  ensures @rows [C07] err == nil ==> (forall k int :: {prArgs[k]} old(prLen) + 1 <= k && k < prLen ==> cellat(string, payload(prArgs[k][3])) in accH[A] && TotalRow(k, cellat(string, payload(prArgs[k][3])), accP[A][cellat(string, payload(prArgs[k][3]))], accN[A][cellat(string, payload(prArgs[k][3]))]))
+  ensures @sorted [C05] err == nil ==> (forall k int :: {prArgs[k]} old(prLen) + 1 <= k && k + 1 < prLen ==> cellat(string, payload(prArgs[k][3])) < cellat(string, payload(prArgs[k + 1][3])))
+  loop 1 {
+    invariant @count i == #it && len(ss) == #n && tr == old(tr) && arr(ss) >= old(alloc()) && arr(ss) != 0 && TotInv(tr) && #n == len(A) && #n > 0 && prLen == old(prLen) && bufSticky == old(bufSticky) && sinkFailed == old(sinkFailed) && sinkPend == old(sinkPend)
+    invariant @copied forall j int :: {ss[j]} 0 <= j && j < #it ==> ss[j] == #ord[j]
+  }
+  ghost after call 1 Strings {
+    unfold SortedStr(elems(ss), len(ss))
+    lassert @keys-perm forall p int :: {ss[p]} 0 <= p && p < len(ss) ==> ss[p] in A && ss[p] == at(call, elems(ss))[PermBack(at(call, elems(ss)), elems(ss), p)]
+    assert @keys forall p int :: {ss[p]} 0 <= p && p < len(ss) ==> ss[p] in A
+    unfold StrictStr(elems(ss), len(ss))
+    assert @strict StrictStr(elems(ss), len(ss))
+    forget call
+  }
+  loop 2 {
+    invariant @inv tr == old(tr) && TotInv(tr) && mapval(A) == old(mapval(A)) && BufStep(tr.output) && len(ss) == len(A) && arr(ss) >= old(alloc()) && len(A) > 0
+    invariant @keys forall p int :: {ss[p]} 0 <= p && p < len(ss) ==> ss[p] in A
+    invariant @strict StrictStr(elems(ss), len(ss))
+    invariant @count prLen == old(prLen) + 1 + #i
+    invariant @adjacent forall k int :: {prArgs[k]} old(prLen) + 1 <= k && k + 1 < prLen ==> cellat(string, payload(prArgs[k][3])) < cellat(string, payload(prArgs[k + 1][3]))
+    end { unfold StrictStr(elems(ss), len(ss)) }
+    invariant @printed forall k int :: {prArgs[k]} old(prLen) + 1 <= k && k < prLen ==> cellat(string, payload(prArgs[k][3])) == ss[k - old(prLen) - 1] && TotalRow(k, ss[k - old(prLen) - 1], accP[A][ss[k - old(prLen) - 1]], accN[A][ss[k - old(prLen) - 1]]) && (forall j int :: {prArgs[k][j]} 0 <= j && j < 4 ==> payload(prArgs[k][j]) >= old(alloc()) && payload(prArgs[k][j]) < alloc())
+  }
+
+// ---------------------------------------------------------------------------------------------
+// report quantity: per food the sum of the logged quantities over the period (C07, C12)
+// ---------------------------------------------------------------------------------------------
+func NewQuantityReporter returns (r)
+  props C17 C08 C07
+  modifies ghost(bufSink, bufSticky)
+  ensures @fresh r.output != nil && fresh(r.output) && r.accumulator != nil && fresh(r.accumulator) && len(r.accumulator) == 0 && r.descending == descending
+  ensures @sink [C17] bufSink == store(old(bufSink), r.output, payload(config.Output)) && bufSticky == store(old(bufSticky), r.output, false)
+
+// after a day every food's figure has grown by exactly the sum of its quantities that day
+func (QuantityReporter).Process returns (err)
+  props C17 C08 C07 C12
+  requires @args ln != nil && r.accumulator != nil && r.output != nil
+  modifies mapof(r.accumulator)
+  ensures @ok err == nil
+  ensures @adds-the-day [C07 C12] forall x string :: {r.accumulator[x]} r.accumulator[x] == old(r.accumulator[x]) + SpecAmt(elems(ln.Elements), len(ln.Elements), x)
+  ensures @foods [C07 C12] forall x string :: {x in r.accumulator} (x in r.accumulator) == (old(x in r.accumulator) || SpecHas(elems(ln.Elements), len(ln.Elements), x))
+  loop 1 {
+    pre { unfold forall x string :: SpecAmt(elems(ln.Elements), 0, x); unfold forall x string :: SpecHas(elems(ln.Elements), 0, x) }
+    invariant @params ln == old(ln) && r == old(r)
+    invariant @sums forall x string :: {r.accumulator[x]} r.accumulator[x] == old(r.accumulator[x]) + SpecAmt(elems(ln.Elements), #i, x)
+    invariant @foods forall x string :: {x in r.accumulator} (x in r.accumulator) == (old(x in r.accumulator) || SpecHas(elems(ln.Elements), #i, x))
+    end { let i1 := #i + 1; unfold forall x string :: SpecAmt(elems(ln.Elements), i1, x); unfold forall x string :: SpecHas(elems(ln.Elements), i1, x) }
+  }
+
+// Flush: the (food, quantity) pairs are handed to the stable sort in strictly increasing order of the food name -
+// a function of the accumulated figures alone, whatever the map iteration order (C05); the sort itself is the
+// library's (deterministic) stable sort by quantity.
+func (QuantityReporter).Flush returns (err)
+  props C17 C08 C05
+  requires @args r.accumulator != nil && r.output != nil
+  modifies *
+  modifies ghost(bufSticky, sinkFailed, sinkPend, prLen, prSink, prArg, prArgs)
+  ensures @sink [C17] BufStep(r.output)
+  ensures @reports-loss [C17] (err != nil) == bufSticky[r.output] && (err == nil ==> sinkPend[bufSink[r.output]] == 0)
+  loop 1 {
+    invariant @count len(names) == #it && r == old(r) && arr(names) >= old(alloc()) && arr(names) != 0 && mapval(r.accumulator) == old(mapval(r.accumulator))
+    invariant @copied forall j int :: {names[j]} 0 <= j && j < #it ==> names[j] == #ord[j]
+  }
+  ghost after call 1 Strings {
+    unfold SortedStr(elems(names), len(names))
+    lassert @keys-perm forall p int :: {names[p]} 0 <= p && p < len(names) ==> names[p] in r.accumulator && names[p] == at(call, elems(names))[PermBack(at(call, elems(names)), elems(names), p)]
+    assert @keys forall p int :: {names[p]} 0 <= p && p < len(names) ==> names[p] in r.accumulator
+    unfold StrictStr(elems(names), len(names))
+    assert @strict StrictStr(elems(names), len(names))
+    forget call
+  }
+  loop 2 {
+    invariant @inv r == old(r) && mapval(r.accumulator) == old(mapval(r.accumulator)) && len(names) == len(r.accumulator) && arr(names) >= old(alloc()) && arr(sortable) >= old(alloc()) && arr(sortable) != arr(names) && arr(sortable) != 0 && len(sortable) == #i
+    invariant @strict StrictStr(elems(names), len(names))
+    invariant @pairs forall j int :: {sortable[j]} 0 <= j && j < #i ==> sortable[j].name == names[j] && sortable[j].value == r.accumulator[names[j]]
+  }
+  ghost before call 1 SliceStable { assert @deterministic-input [C05] len(sortable) == len(r.accumulator) && StrictStr(elems(names), len(names)) && (forall j int :: {sortable[j]} 0 <= j && j < len(sortable) ==> sortable[j].name == names[j] && sortable[j].value == r.accumulator[names[j]]) }
+  ghost before call 2 SliceStable { assert @deterministic-input-asc [C05] len(sortable) == len(r.accumulator) && StrictStr(elems(names), len(names)) && (forall j int :: {sortable[j]} 0 <= j && j < len(sortable) ==> sortable[j].name == names[j] && sortable[j].value == r.accumulator[names[j]]) }
+  loop 3 { invariant @sink r == old(r) && BufStep(r.output) }
+
+// ---------------------------------------------------------------------------------------------
+// report element-total: the rows are printed in the order of the list it is given
+// ---------------------------------------------------------------------------------------------
+func NewElementReporter returns (er)
+  props C17 C08
+  modifies ghost(bufSink, bufSticky)
+  ensures @fresh er != nil && fresh(er) && er.output != nil && fresh(er.output) && er.list == list
+  ensures @sink [C17] bufSink == store(old(bufSink), er.output, payload(c.Output)) && bufSticky == store(old(bufSticky), er.output, false)
+
+func (ElementReporter).Process returns (err)
+  props C17 C08
+  ensures err == nil
+
+func (ElementReporter).Flush returns (err)
+  props C17 C08
+  requires @args er.output != nil
+  modifies ghost(bufSticky, sinkFailed, sinkPend, prLen, prSink, prArg, prArgs)
+  ensures @sink [C17] BufStep(er.output)
+  ensures @reports-loss [C17] err == nil ==> !bufSticky[er.output] || old(bufSticky[er.output])
+  ensures @flushed [C17] err == nil ==> !bufSticky[er.output] && sinkPend[bufSink[er.output]] == 0
+  loop 1 { invariant @sink er == old(er) && BufStep(er.output) && bufSticky[er.output] == old(bufSticky[er.output]) }
+@*/
